@@ -157,6 +157,12 @@ def build_path(joined, rnd, kinds):
         pos = e if joined[k] else e + (0.1 - 0.3j)
     if joined[-1]:
         ends[-1] = starts[0]
+    if n == 1 and joined[0]:
+        # a one-segment closed path: a Bezier loop whose end is its start (its closing joint is the segment's own ends)
+        a = starts[0]
+        if kinds[0] == 'Q':
+            return sp.Path(sp.QuadraticBezier(a, a + (2.5 + 1 / 3.0 * 1j), a))
+        return sp.Path(sp.CubicBezier(a, a + (3 + 1j) / 3.0, a + (-1 + 2.2j), a))
     segs = []
     for k in range(n):
         a, b = starts[k], ends[k]
@@ -205,9 +211,7 @@ def path_ops(ck, rnd, quick):
     r = ck.tlc('Rejoin', open(am.__file__.rsplit('/', 2)[0] + '/spec/Rejoin_MC.cfg').read().replace('N = 3', 'N = 4'))
     pats = [[bool(b >> k & 1) for k in range(n)] for n in (1, 2, 3, 4) for b in range(2 ** n)]
     for joined in pats:
-        if len(joined) == 1 and joined[0]:
-            continue
-        for kinds in (['L'], ['L', 'C', 'Q'], ['C', 'A', 'L', 'Q']):
+        for kinds in (['L'], ['L', 'C', 'Q'], ['C', 'A', 'L', 'Q']) if not (len(joined) == 1 and joined[0]) else (['C'], ['Q']):
             for rep in range(1 if quick else 4):
                 path = build_path(joined, rnd, kinds)
                 has_arc = any(isinstance(s, sp.Arc) for s in path)
